@@ -216,6 +216,14 @@ def respond (line : String) : String :=
        | .ok (b, n) => s!"ok {hex b} {n}"
        | .error e => s!"err {e}")
     | _, _, _ => "bad-request"
+  | [.atom "derive", .list defs, ident] =>
+    -- `T::get_schema()` of a derived type, given the definitions of all types it may mention
+    match defs.mapM parseTypeDef, atomBytes? ident with
+    | some env, some ident =>
+      (match deriveSchema env 200 ident with
+       | some s => s!"ok {showJOut (toJson s)}"
+       | none => "panic")
+    | _, _ => "bad-request"
   | [.atom "compat", w, r] =>
     match parseSchema w, parseSchema r with
     | some w, some r =>
